@@ -68,24 +68,24 @@ def run(tier, seed, t0):
     m = Merged(); wd = R.workdir(ID)
     repo = R.builder.repo_dir()
     # ---- (c) monitored solver under ASan: stage evidence + detection --------------------------------------
-    n_sim = T(tier, 48, 1200)
+    n_sim = T(tier, 36, 1200)
     for thr, share in ((1, 0.5), (4, 0.5)):
         n = int(n_sim * share)
         # 1 thread: additionally with libstdc++ assertions (an index beyond a vector's size that lands in another live allocation is invisible to the red zones)
         fl = "asanassert" if thr == 1 else "asan"
-        R.run_inv(Inv("simrun", n, fl, args=["--max_iterations=%d" % T(tier, 150, 400), "--min_iterations=50"], threads=thr, first=(0 if thr == 1 else n_sim),
+        R.run_inv(Inv("simrun", n, fl, args=["--max_iterations=%d" % T(tier, 110, 400), "--min_iterations=40"], threads=thr, first=(0 if thr == 1 else n_sim + 6),
                       timeout=T(tier, 1500, 4 * 3600), tag="simrun/%s/t%d" % (fl, thr)), seed, wd, m)
     # 4 solver threads in a process whose OpenMP default is 1 thread (whatever a member sizes from the default at construction is too small afterwards)
-    R.run_inv(Inv("simrun", T(tier, 12, 300), "asan", args=["--max_iterations=%d" % T(tier, 100, 300), "--min_iterations=40", "--omp_default=1"], threads=4, first=3 * n_sim,
+    R.run_inv(Inv("simrun", T(tier, 8, 300), "asan", args=["--max_iterations=%d" % T(tier, 80, 300), "--min_iterations=40", "--omp_default=1"], threads=4, first=3 * n_sim + 8,
                   timeout=T(tier, 1500, 4 * 3600), tag="simrun/asan/t4_default1"), seed, wd, m)
     # ---- (d) remeshing histories with libstdc++ assertions ------------------------------------------------
-    R.run_inv(Inv("remesh", T(tier, 32, 800), "asanassert", args=["--oracle=c11", "--max_faces=200", "--max_passes=8"], first=2000000, timeout=T(tier, 1500, 4 * 3600)), seed, wd, m)
+    R.run_inv(Inv("remesh", T(tier, 24, 800), "asanassert", args=["--oracle=c11", "--max_faces=200", "--max_passes=8"], first=2000000, timeout=T(tier, 1500, 4 * 3600)), seed, wd, m)
     # ---- (a) the real executable under ASan+UBSan ---------------------------------------------------------
     vh_plain = R.builder.build("plain", "c1d0", "vh")
     main_asan = R.builder.build("asan", "c1d0", "main")
-    n_main = T(tier, 24, 600)
+    n_main = T(tier, 18, 600)
     sc_dir = os.path.join(wd, "scen")
-    mk_main = ["--max_iterations=%d" % T(tier, 120, 300), "--min_iterations=40"]
+    mk_main = ["--max_iterations=%d" % T(tier, 100, 300), "--min_iterations=40"]
     r = subprocess.run([vh_plain, "mkscenario", "--seed", str(seed), "--cases", str(n_main), "--first", "5000", "--dir=" + sc_dir] + mk_main, capture_output=True, text=True)
     scen = [json.loads(l) for l in r.stdout.splitlines() if l.strip().startswith("{")]
     if len(scen) != n_main:
